@@ -40,6 +40,24 @@ CLAIMS["C09"] = (
     "oracle only (not in the Coq model).",
     "DESIGN.md section 5 C09", TECH)
 
+CLAIMS["C15"] = (
+    "Proof: 14 theorems (Props/C15.v, closed under the global context) about the model of TypeNormalizer "
+    "(Model/Norm.v, with the union/literal ordering keys built character by character as _make_orderable does): the "
+    "union form depends only on the set of non-literal members and the set of literal values (C15_union_canonical: "
+    "reordering, duplication, nesting, literal merge/split as corollaries), union idempotence, Optional = Union with "
+    "None, Literal[None] = None, bare generic = generic with its implicit parameters (Any / bound / union of "
+    "constraints), bare tuple, a union admits exactly the values its members admit (no collapse; Literal[0] vs "
+    "Literal[False]); refutations by vm_compute of the ==-based literal de-duplication of the pinned tree and of the "
+    "key-tie case. Tied to the code by correspondence on hints drawn from the model grammar and rendered with random "
+    "equivalent spellings (structure AND member order compared), plus a direct oracle on the implementation: "
+    "meaning-preserving rewrites must keep form, hash and order, meaning-changing edits must change the form.",
+    "Trusted: Coq kernel, renderers, str() of origins as interpreter facts shipped per case; typing's own flattening "
+    "and type-aware de-duplication are part of what the model describes end to end. Hypothesis 'ordering keys separate "
+    "the members' is explicit; its negation (same-named distinct classes) is a recorded known finding. Two defects "
+    "repaired in /repo (7c8a89a, 5da2022). Whole-normaliser idempotence is proved at the union level only; "
+    "TypeVar/ParamSpec/Callable/TypeAlias forms are outside the modelled grammar.",
+    "DESIGN.md section 5 C15", TECH)
+
 NOT_YET = "check not built yet in this session (DESIGN.md section 10 build order); not claimed until its model, theorems and correspondence exist"
 
 
